@@ -137,7 +137,7 @@ impl<T: CoordsFloat> std::ops::Sub<Vector2<T>> for Vector2<T> {
 impl<T: CoordsFloat> std::ops::SubAssign<Vector2<T>> for Vector2<T> {
     fn sub_assign(&mut self, rhs: Vector2<T>) {
         self.0 -= rhs.0;
-        self.0 -= rhs.0;
+        self.1 -= rhs.1;
     }
 }
 
